@@ -11,7 +11,21 @@ if [ ! -d $WT ]; then git -C /repo worktree add -q --detach $WT 494edea >>$LOG 2
 cd $WT && git checkout -q -- . && git clean -fdq -e target >>$LOG 2>&1
 DEST=$(python3 -c "import json;print(json.load(open('$SRC/meta.json')).get('demo_dest','avro/tests/demo_test.rs'))")
 DEMO=$(ls $SRC/demo_test.rs $SRC/demo.rs 2>/dev/null | head -1)
-CMD=$(python3 -c "import json;print(json.load(open('$SRC/meta.json')).get('demo_cmd',''))" | sed "s#/tmp/wt/$P#$WT#g")
+CMD=$(python3 - <<PY
+import json,re,os
+m=json.load(open('$SRC/meta.json'))
+dest=m.get('demo_dest','avro/tests/demo_test.rs')
+cmd=m.get('demo_cmd','')
+f=re.search(r'--features[ =]([A-Za-z0-9_,-]+)',cmd)
+feat=(' --features '+f.group(1)) if f else ''
+pkg='apache-avro-derive' if dest.startswith('avro_derive') else 'apache-avro'
+stem=os.path.splitext(os.path.basename(dest))[0]
+if '/examples/' in dest:
+    print('cargo run --offline -p %s --example %s%s' % (pkg, stem, feat))
+else:
+    print('cargo test --offline -p %s --test %s%s' % (pkg, stem, feat))
+PY
+)
 echo "demo_dest=$DEST demo=$DEMO cmd=$CMD" >>$LOG
 cp $DEMO $WT/$DEST
 # 1. demo on clean tree
